@@ -249,6 +249,6 @@ def corelang_cases(draw):
 
 
 CLAUSES = [
-    Clause('export-import', check_case, kind='random', strategy=cases, budget={'quick': 5000, 'thorough': 40000}),
-    Clause('corelang', check_case, kind='random', strategy=corelang_cases, budget={'quick': 240, 'thorough': 3000}),
+    Clause('export-import', check_case, kind='random', strategy=cases, budget={'quick': 5000, 'thorough': 120000}),
+    Clause('corelang', check_case, kind='random', strategy=corelang_cases, budget={'quick': 240, 'thorough': 9000}),
 ]
